@@ -572,10 +572,13 @@ pub fn run_parent(p: &dyn Property, tier: Tier) -> RunResult {
                             Some((seq, case)) if st.signal().is_some() || stderr_txt.contains("stack overflow") || stderr_txt.contains("memory allocation") => {
                                 abort_events.push(json!({"shard": r.shard, "seq": seq, "what": what, "case": case,
                                     "stderr": stderr_txt.chars().take(300).collect::<String>()}));
-                                if r.respawns < 40 {
+                                // every abort is already a recorded event (a verdict for C03/C06/C12/C13); a shard that
+                                // keeps dying only burns its CPU budget again and again, so it is given up after a few
+                                let limit = if p.abort_is_verdict() { 5 } else { 40 };
+                                if r.respawns < limit {
                                     pending.push((r.shard, seq, r.respawns + 1));
-                                } else {
-                                    infra_errors.push(format!("shard {} died more than 40 times", r.shard));
+                                } else if !p.abort_is_verdict() {
+                                    infra_errors.push(format!("shard {} died more than {} times", r.shard, limit));
                                 }
                             }
                             _ => {
